@@ -59,7 +59,7 @@ def corrupt(rng, text, fmt):
     if lines and lines[-1] == "":
         lines.pop()
     data_idx = [i for i, l in enumerate(lines) if l.strip() and not l.startswith("#")]
-    kind = rng.choice(["drop-column", "bad-strand", "non-numeric", "reversed", "blank-and-comment", "field-count", "gap-first", "duplicate-line", "swap-lines", "no-final-newline"])
+    kind = rng.choice(["drop-column", "bad-strand", "non-numeric", "reversed", "blank-and-comment", "field-count", "gap-first", "duplicate-line", "swap-lines", "no-final-newline", "truncated-line", "tabs-to-blanks"])
     if kind == "no-final-newline":
         # a benign variant: the last line of the file is not terminated
         return "\n".join(lines), kind
@@ -127,6 +127,17 @@ def corrupt(rng, text, fmt):
             return text, "unchanged"
         k = next((j for j, l in enumerate(lines) if l.strip() and not l.startswith("#")), 0)
         lines.insert(k, "GAP\tTYPE-2\t200")
+    elif kind == "truncated-line":
+        # the line is cut off after its k-th column (k may be as small as 1)
+        if len(f) < 2:
+            return text, "unchanged"
+        lines[i] = "\t".join(f[: rng.randint(1, len(f) - 1)])
+    elif kind == "tabs-to-blanks":
+        # an editor replaced (some of) the tabs of one line with blanks
+        if len(f) < 2:
+            return text, "unchanged"
+        k = rng.choice([0, 0, rng.randint(1, len(f) - 1)])
+        lines[i] = " ".join(f) if k == 0 else "\t".join(f[:k]) + " " + " ".join(f[k:])
     elif kind == "duplicate-line":
         lines.insert(i, lines[i])
     elif kind == "swap-lines":
